@@ -845,6 +845,109 @@ impl Session {
         self.set_session_mode(mode)
     }
 
+    /// Install identifiers, keys and mode on a session (set-up of mirrored sessions, C03).
+    #[allow(clippy::too_many_arguments)]
+    pub fn verif_install(
+        &mut self,
+        local_sess_id: u16,
+        peer_sess_id: u16,
+        local_nodeid: u64,
+        peer_nodeid: Option<u64>,
+        dec_key: &[u8; crate::crypto::AEAD_CANON_KEY_LEN],
+        enc_key: &[u8; crate::crypto::AEAD_CANON_KEY_LEN],
+        mode: SessionMode,
+    ) {
+        self.local_sess_id = local_sess_id;
+        self.peer_sess_id = peer_sess_id;
+        self.local_nodeid = local_nodeid;
+        self.peer_nodeid = peer_nodeid;
+        self.dec_key.load_from_array(dec_key);
+        self.enc_key.load_from_array(enc_key);
+        self.mode = mode;
+    }
+
+    /// The real `pre_send` without an exchange (session id, counter, node ids, group flags).
+    pub fn verif_pre_send(&mut self, tx_header: &mut PacketHdr) -> Result<(), Error> {
+        self.pre_send(None, tx_header, None, None).map(|_| ())
+    }
+
+    /// The real `encode` (protocol header + encryption + plain header) with this session's key.
+    pub fn verif_encode<C: Crypto>(
+        &self,
+        crypto: C,
+        tx: &PacketHdr,
+        wb: &mut WriteBuf,
+    ) -> Result<(), Error> {
+        self.encode(crypto, tx, wb)
+    }
+
+    pub fn verif_add_exch(&mut self, exch_id: u16, initiator: bool) -> Option<usize> {
+        self.add_exch(
+            exch_id,
+            if initiator {
+                Role::Initiator(Default::default())
+            } else {
+                Role::Responder(Default::default())
+            },
+        )
+    }
+
+    pub fn verif_set_expired(&mut self, expired: bool) {
+        self.expired = expired;
+    }
+
+    /// Everything C03 calls "state" of a session, `last_use` excluded:
+    /// `rx=<max>:<bitmap>:<synced> tx=<ctr> ex=[<id>/<I|R>/<retrans ctr|->/<ack ctr|->,..]` followed by
+    /// the identifiers, the keys and the complete `Debug` rendering of the exchange table.
+    pub fn verif_snapshot(&self, out: &mut dyn core::fmt::Write) -> core::fmt::Result {
+        #[allow(unused_imports)]
+        use core::fmt::Write as _;
+
+        let (max, bitmap, synced) = self.rx_ctr_state.verif_parts();
+        write!(out, "rx={}:{}:{} tx={} ex=[", max, bitmap, synced as u8, self.msg_ctr)?;
+        let mut first = true;
+        for e in self.exchanges.iter().flatten() {
+            if !first {
+                write!(out, ",")?;
+            }
+            first = false;
+            write!(
+                out,
+                "{}/{}/",
+                e.exch_id,
+                if matches!(e.role, Role::Initiator(_)) { "I" } else { "R" }
+            )?;
+            match e.mrp.retrans.as_ref() {
+                Some(r) => write!(out, "{}", r.get_msg_ctr())?,
+                None => write!(out, "-")?,
+            }
+            write!(out, "/")?;
+            match e.mrp.ack.as_ref() {
+                Some(a) => write!(out, "{}", a.get_msg_ctr())?,
+                None => write!(out, "-")?,
+            }
+        }
+        write!(
+            out,
+            "] | lsid={} psid={} lnode={:x} pnode={:?} mode={:?} expired={} reserved={} dec=",
+            self.local_sess_id,
+            self.peer_sess_id,
+            self.local_nodeid,
+            self.peer_nodeid,
+            self.mode,
+            self.expired,
+            self.reserved
+        )?;
+        for b in self.dec_key.access() {
+            write!(out, "{:02x}", b)?;
+        }
+        write!(out, " enc=")?;
+        for b in self.enc_key.access() {
+            write!(out, "{:02x}", b)?;
+        }
+        write!(out, " exch={:?}", self.exchanges)
+    }
+
     /// Read-only view of a session for the handshake properties:
     /// `(reserved, local node id, decryption key, encryption key)`.
     pub fn verif_view(&self) -> (bool, u64, [u8; 16], [u8; 16]) {
